@@ -14,6 +14,9 @@ Oracle per crash point:
   the reference (for a fault inside an event function, which runs while the step is un-committed, n and n + 1 are both
   accepted, but trajectory, dense pieces and the resumed run must agree on the same choice);
   with dense output: exactly n - 1 pieces satisfying C06 oracles 1, 2, 4;
+  at every third crash point a SECOND fault is injected 1 / 2 / 5 / 17 user calls into the resumed integrate(): it is
+  reported the same way, the samples kept after the first fault are still a bit-identical prefix, the kept grid is
+  strictly monotone and (dense output) consistent;
   integrate() again (fault off) reaches the target, satisfies the C03 invariants, is as accurate as the fault-free run
   (error against an accurate solution <= 3 x that of the fault-free run + 1e-9 relative / 50 x tolerance) and its dense output is consistent,
   including the first piece after the resume point;
@@ -70,7 +73,9 @@ def _config(draw, cap=160):
     return dict(part="faults", method=method, dtype="float64", prob=prob, y0=draw(PR.state(prob["shape"])), t0=t0, tf=t0 + direction * L,
                 dt=L / nsteps, rtol=1e-6, atol=1e-6, dense=draw(st.booleans()), callbacks=draw(st.booleans()),
                 events=draw(st.sampled_from([[], [], [0.37], [0.37, 0.62]])), user_jac=draw(st.booleans()),
-                fault=draw(st.sampled_from(["custom", "custom", "runtime", "zerodiv", "keyboard", "nested"])), cap=cap)
+                fault=draw(st.sampled_from(["custom", "custom", "runtime", "zerodiv", "keyboard", "nested"])), cap=cap,
+                # a second fault, `second` user-callable calls into the resumed integrate() (at every third crash point)
+                second=draw(st.sampled_from([0, 0, 1, 2, 5, 17])))
 
 
 def parts(tier):
@@ -198,6 +203,7 @@ def check(case):
     err_ref = float(np.max(np.abs(y_ref[-1] - y_fine)))
     viols = []
     deep = 0
+    double = 0
     tol_res = 50 * (case["atol"] + case["rtol"] * float(np.max(np.abs(y_ref))))
     for k in ks:
         kind, n_expected = log[k - 1]
@@ -247,6 +253,33 @@ def check(case):
         elif a.sol is not None:
             viols.append(V("sol_not_none", "dense output off but sol is not None after the failure", sig, **attrs))
             break
+        # ---- a second fault during the resumed call: reported the same way, what was kept stays kept
+        if case.get("second") and (k - ks[0]) % 3 == 0 and case["fault"] != "keyboard":
+            first_fault = h.fault_obj
+            h.fault_at = h.calls + case["second"]
+            outd, errd = h.integrate()
+            where2 = where + ", then fault #{} of the resumed call".format(case["second"])
+            if h.fault_obj is not first_fault:
+                # the second fault fired
+                if outd != "failed" or errd.__cause__ is not h.fault_obj or a.success:
+                    viols.append(V("second_failure_not_reported", "{}: {}: outcome {!r}, cause {!r}, success {}".format(method, where2, outd, getattr(errd, "__cause__", None), a.success), sig + kind, kind=kind, **attrs))
+                    break
+                t2, y2 = np.asarray(a.t), np.asarray(a.y)
+                if len(t2) != len(a) or len(y2) != len(a) or len(a) < n or not np.array_equal(t2[:n], t_ref[:n]) or not np.array_equal(y2[:n], y_ref[:n]):
+                    viols.append(V("prefix_after_second_fault", "{}: {}: {} samples (t {}, y {}); the {} samples kept after the first fault are no longer its prefix".format(method, where2, len(a), len(t2), len(y2), n), sig + kind, kind=kind, **attrs))
+                    break
+                sg = 1.0 if case["tf"] > case["t0"] else -1.0
+                if np.any(sg * np.diff(t2.astype(np.float64)) <= 0) or not np.all(np.isfinite(y2)):
+                    viols.append(V("prefix_after_second_fault", "{}: {}: kept times not strictly monotone / states not finite: {}".format(method, where2, t2[-4:].tolist()), sig + kind, kind=kind, **attrs))
+                    break
+                if case["dense"]:
+                    dv = traj.dense_consistency(a, h.f, fam, dict(attrs, kind=kind), what="after " + where2, sig_what="after second fault in " + kind)
+                    if dv:
+                        viols += dv
+                        break
+                double += 1
+            else:
+                h.fault_at = None       # the resumed call needed fewer calls than that: it simply completed (checked below as a resume)
         # ---- resume
         out2, err2 = h.integrate()
         if out2 != "ok":
@@ -291,4 +324,4 @@ def check(case):
     labels += ["calls:" + kd for kd in kinds]
     if exhaustive:
         labels.append("all_crash_points_enumerated")
-    return viols, dict(nontrivial=deep > 0, labels=labels, counts=dict(crash_points=len(ks), user_calls_in_reference=E))
+    return viols, dict(nontrivial=deep > 0, labels=labels, counts=dict(crash_points=len(ks), user_calls_in_reference=E, second_faults_during_resume=double))
